@@ -114,12 +114,18 @@ def readoutsInpl : List (Name × Fn) → Env → Except Err Env
     | .error e => .error e
     | .ok v => readoutsInpl rest (env.set k v)
 
-/-- the `args` dict of one row inside `_get_args_time_course(include_readouts=True)` -/
+/-- the `args` dict of one row inside `_get_args_time_course(include_readouts=True)`: `_get_args` with the data sets
+    popped, then the readouts in DEPENDENCY order on `self._data | args` (shared with the core model:
+    `Mxl.sortedReadouts` / `Mxl.evalReadouts`, after the repairs "readouts can name data sets" and "readouts are
+    evaluated in dependency order") -/
 def pointEnv (c : Content) (cache : Cache) (t : Rat) (vals : Row) : Except Err Env :=
   match getArgsEnv c cache vals t with
   | .error e => .error e
   | .ok env =>
-    readoutsInpl c.readouts (env.filter fun kv => !(omKeys c.data).contains kv.1)
+    let raw := env.filter fun kv => !(omKeys c.data).contains kv.1
+    match sortedReadouts c (raw ++ c.data) with
+    | .error e => .error e
+    | .ok ros => evalReadouts ros (raw ++ c.data) raw
 
 /-- `.loc[names]` on one row: `KeyError` for an absent column -/
 def selectRow (names : List Name) (env : Env) : Except Err Row :=
@@ -337,7 +343,8 @@ def rhsTimeCourse (c : Content) (args : Table) : Except Err Table :=
   match createCache c with
   | .error e => .error e
   | .ok cache =>
-    match mapE (fun r => match rhsFromArgs cache (omKeys c.vars) (("time", r.1) :: r.2) with
+    -- computed coefficients are evaluated on `self._data | args`
+    match mapE (fun r => match rhsFromArgs cache (omKeys c.vars) ((("time", r.1) :: r.2) ++ c.data) with
         | .error e => .error e
         | .ok d => .ok (r.1, d)) args with
     | .error e => .error e
